@@ -110,7 +110,11 @@ TEXTS = {
                   'every policy-accepted config is in one of them (finite, vm_compute); ops resolved to no-quantize and '
                   'non-float/ignored operands plan NO_QUANTIZE; one performer step retypes exactly one tensor to the '
                   'integer dtype of the configured width, an inserted QUANTIZE/DEQUANTIZE converts between the dtypes of '
-                  'its neighbours, and only the transformed tensor\'s buffer can change. Tied by correspondences P, I, T/E; '
+                  'its neighbours, and only the transformed tensor\'s buffer can change; WHOLE RUNS of the performer, in terms of the '
+                  'input model: a tensor no instruction names keeps dtype/buffer/annotation and its readers; a tensor quantized '
+                  'in place gets the selected dtype and keeps its readers; the tensor created by the last instruction of a '
+                  'nested list is read by exactly the original operators it lists, at their original operand slots. '
+                  'Tied by correspondences P, I, T/E; '
                   'a per-operand dtype oracle derived from the recipe resolution runs on every returned model.'),
         'note': ('The instruction generator is covered by two theorems over ALL plan entries (no consumer position is lost; '
                  'no instruction is invented; the three vertical rewrites are the only deviations and only at position 0 '
